@@ -201,6 +201,13 @@ def rule_regex_error_conversion(ctx, rep, rid_c: str, rid_m: str) -> None:
         key = f"{f.qual}:{cs.ext.split(':')[-1]}(...)"
         loc = f"{f.module.rel}:{cs.line}"
         cls = conv_handler(cs.call, f, "RegExpError")
+        if cls is None and cs.ext[6:] == js.qual:
+            # the wrapper class may convert inside its own constructor
+            init = js.methods.get("__init__")
+            if init is not None:
+                for ics in ctx.cg.sites_of.get(id(init), []):
+                    if ics.ext == "class:" + facade.qual:
+                        cls = conv_handler(ics.call, init, "RegExpError")
         if cls is None:
             rep.bad(rid_c, key, f"{f.qual} constructs a regex from a script-supplied pattern without converting RegExpError: an invalid pattern escapes eval as a host exception that no script can catch", loc)
         elif cls not in conv or conv.get(cls) != "SyntaxError":
@@ -493,6 +500,11 @@ def rule_snapshot_ownership(ctx, rep, rid: str) -> None:
                     nested.add(n.targets[0].id)
                 elif isinstance(v, ast.BinOp) and isinstance(v.op, ast.Mult) and isinstance(v.left, ast.List):
                     flat.add(n.targets[0].id)
+                elif isinstance(v, ast.List) and not any(isinstance(e, (ast.List, ast.ListComp)) for e in v.elts):
+                    flat.add(n.targets[0].id)
+            if isinstance(n, ast.AnnAssign) and isinstance(n.target, ast.Name) and n.value is not None and "Tuple" not in norm(n.annotation):
+                if isinstance(n.value, ast.List) and not n.value.elts and "List[List" not in norm(n.annotation):
+                    flat.add(n.target.id)
         # parameters / derived names carrying capture lists
         for p in f.params():
             if "capture" in p.lower():
